@@ -62,6 +62,28 @@ Theorem C01_volume_point_is_definition : forall (Uu Uv Uw : list R) (P : list (l
 Proof. exact volume_point_is_definition. Qed.
 Print Assumptions C01_volume_point_is_definition.
 
+(* [G] rational surfaces / volumes: quotient of the homogeneous tensor-product sums *)
+Theorem C01_rational_surface_point_is_quotient : forall (Uu Uv : list R) (Pw : list (list R)) (pu pv su sv dim : nat) (u v : R),
+  sortedR Uu -> sortedR Uv -> wf_net Pw (S dim) -> length Pw = (su * sv)%nat ->
+  (pu < su)%nat -> (pv < sv)%nat -> length Uu = (su + pu + 1)%nat -> length Uv = (sv + pv + 1)%nat ->
+  knR Uu pu <= u < knR Uu su -> knR Uv pv <= v < knR Uv sv ->
+  forall d, (d < dim)%nat ->
+  nth d (obj_surface_point Rops true dim pu pv Uu Uv su sv Pw (u, v)) 0
+  = surface_def Uu Uv pu pv su sv Pw d u v / surface_def Uu Uv pu pv su sv Pw dim u v.
+Proof. exact rational_surface_point_is_quotient. Qed.
+Print Assumptions C01_rational_surface_point_is_quotient.
+
+Theorem C01_rational_volume_point_is_quotient : forall (Uu Uv Uw : list R) (Pw : list (list R)) (pu pv pw su sv sw dim : nat) (u v w : R),
+  sortedR Uu -> sortedR Uv -> sortedR Uw -> wf_net Pw (S dim) -> length Pw = (su * sv * sw)%nat ->
+  (pu < su)%nat -> (pv < sv)%nat -> (pw < sw)%nat ->
+  length Uu = (su + pu + 1)%nat -> length Uv = (sv + pv + 1)%nat -> length Uw = (sw + pw + 1)%nat ->
+  knR Uu pu <= u < knR Uu su -> knR Uv pv <= v < knR Uv sv -> knR Uw pw <= w < knR Uw sw ->
+  forall d, (d < dim)%nat ->
+  nth d (obj_volume_point Rops true dim pu pv pw Uu Uv Uw su sv sw Pw (u, v, w)) 0
+  = volume_def Uu Uv Uw pu pv pw su sv sw Pw d u v w / volume_def Uu Uv Uw pu pv pw su sv sw Pw dim u v w.
+Proof. exact rational_volume_point_is_quotient. Qed.
+Print Assumptions C01_rational_volume_point_is_quotient.
+
 (* [G] sampled grid: n parameters, the first exactly the domain start and the last exactly the domain end *)
 Theorem C01_grid_size_and_ends : forall tol8 a b n, tol8 < Rabs (a - b) -> (2 <= n)%nat ->
   length (linspace Rops tol8 a b n) = n /\
